@@ -251,6 +251,29 @@ pub fn run(a: &Args, out: &mut Out) {
             }
         }
     }
+    // set_bit landing EXACTLY on the modulus or next to it: for every bit i of r, x = r - 2^i + d (d in {-1, 0, 1}) with bit i
+    // set to 1 gives r + d; for every 0-bit j of r, x = (r + 2^j + d) mod r cleared at j ...  computed on field values: r = 0
+    {
+        let rb = r_bytes();
+        let one = Fr::one();
+        let mut pw = Fr::one();                   // 2^i mod r
+        for i in 0..256usize {
+            let bit_in_r = (rb[31 - i / 8] >> (i % 8)) & 1 == 1;
+            for d in [Fr::zero(), one, -one] {
+                let x = d - pw;                   // r - 2^i + d
+                let sv = x.to_slice();
+                let has = (sv[31 - i / 8] >> (i % 8)) & 1 == 1;
+                if bit_in_r && !has {
+                    out.call("f.set_bit", json!({"a": b(&sv), "i": i, "to": true}), || {
+                        let mut z = x;
+                        z.set_bit(i, true);
+                        outs! {"out" => b(&z.to_slice())}
+                    });
+                }
+            }
+            pw = pw + pw;
+        }
+    }
     // set_bit on zero and on r-1
     for bit in [0usize, 1, 63, 64, 255] {
         for (v, name) in [(Fr::zero(), "zero"), (-Fr::one(), "rm1")] {
